@@ -551,6 +551,28 @@ fn check_add(cx: &Ctx, ab: &[u8; 32], bb: &[u8; 32]) -> Out {
             format!("public_key({} + {}) = {} but pk(a) + pk(b) = {}", hx(ab), hx(bb), hx(&s1.public_key().to_bytes()), hx(&p1.to_bytes())),
         );
     }
+    // subtraction and negation of public keys: (pa + pb) - pb = pa, also when the left-hand side is
+    // (or becomes) the identity: 0 - pb = -pb, (0 - pb) + pb = 0, pb - pb = 0
+    {
+        let pa = a.public_key();
+        let mut d = p1.clone();
+        d -= &pb;
+        let mut z = PublicKey::default();
+        z -= &pb;
+        let mut negb = pb.clone();
+        negb.negate();
+        let back = &z + &pb;
+        let mut self_cancel = pb.clone();
+        self_cancel -= &pb;
+        let mut again = self_cancel.clone();
+        again -= &pb; // left-hand side became the identity through arithmetic
+        if !same_pk(&d, &pa) || !same_pk(&z, &negb) || !same_pk(&back, &PublicKey::default()) || !same_pk(&self_cancel, &PublicKey::default()) || !same_pk(&again, &negb) || !self_cancel.is_inf() || !back.is_inf() {
+            out.v(
+                "C16/sub/public-laws",
+                format!("pa = pk({}), pb = pk({}): (pa+pb)-pb = {} (want {}), 0-pb = {} (want -pb = {}), (0-pb)+pb = {}, pb-pb = {} (is_inf {}), (pb-pb)-pb = {}", hx(ab), hx(bb), hx(&d.to_bytes()), hx(&pa.to_bytes()), hx(&z.to_bytes()), hx(&negb.to_bytes()), hx(&back.to_bytes()), hx(&self_cancel.to_bytes()), self_cancel.is_inf(), hx(&again.to_bytes())),
+            );
+        }
+    }
     sk_roundtrip(&mut out, "sum of secret keys", &s1);
     pk_roundtrip(&mut out, "sum of public keys", &p1);
     out
